@@ -111,33 +111,7 @@ func runC12(c *eng.Ctx, tier string) {
 		c.Check(!isSlow, "R-C12-2", f, f.Pos(), "effects of handle body "+eng.FName(f), "a handle call makes no service request and no blocking operation", why)
 	}
 
-	// R-C12-3 installed values never mutated
-	n3 := 0
-	for _, f := range p.PkgFuncs(setecPkg) {
-		eng.Instrs(f, func(in ssa.Instruction) {
-			switch x := in.(type) {
-			case *ssa.Store:
-				if fr, ok := eng.FieldOfAddr(x.Addr); ok && eng.IsNamed(fr.Owner, "types/api", "SecretValue") {
-					fa := x.Addr.(*ssa.FieldAddr)
-					n3++
-					c.Check(freshBase(fa.X), "R-C12-3", f, in.Pos(), "store to SecretValue."+fr.Name, "a SecretValue is only written inside the literal that creates it (values are replaced, never mutated)", "stores into an existing value "+eng.ValStr(fa.X))
-				}
-				if ia, ok := x.Addr.(*ssa.IndexAddr); ok && derivedFromSecretBytes(ia.X) {
-					c.Bad("R-C12-3", f, in.Pos(), eng.InstrStr(in), "no element store into bytes owned by the store", "writes into "+eng.ValStr(ia.X))
-				}
-			case *ssa.Call:
-				if args, ok := eng.BuiltinCall(in, "copy"); ok && derivedFromSecretBytes(args[0]) {
-					c.Bad("R-C12-3", f, in.Pos(), eng.InstrStr(in), "no copy into bytes owned by the store", "destination "+eng.ValStr(args[0]))
-				}
-				if args, ok := eng.BuiltinCall(in, "append"); ok && derivedFromSecretBytes(args[0]) {
-					c.Bad("R-C12-3", f, in.Pos(), eng.InstrStr(in), "no append onto bytes owned by the store (may write into spare capacity)", "base "+eng.ValStr(args[0]))
-				}
-			}
-		})
-	}
-	if n3 == 0 {
-		c.Ok("R-C12-3", nil, 0, "stores to api.SecretValue fields in client/setec", "none outside literals")
-	}
+	storeBytesImmutable(c, "R-C12-3")
 
 	// R-C12-4 removal guarded by the handle map; creation of handles; installs
 	nDel := 0
@@ -158,30 +132,7 @@ func runC12(c *eng.Ctx, tier string) {
 				c.Bad("R-C12-4", a.Fn, a.In.Pos(), eng.InstrStr(a.In), "after publication names are removed one at a time under a handle check", "clear() of the active set")
 				continue
 			}
-			ok := false
-			for _, cond := range eng.FactsAt(a.In) {
-				src, truth, isCO := cond.CommaOk()
-				if !isCO || truth {
-					continue
-				}
-				lk, isLk := src.(*ssa.Lookup)
-				if !isLk {
-					continue
-				}
-				if n, isAct := activeMapOf(lk.X); isAct && n == "f" && eng.Same(lk.Index, a.Map.Key) {
-					// same critical section: no unlock between lookup and delete
-					hit, _ := eng.Search(a.Fn, lk, nil, func(x ssa.Instruction) bool { return x == a.In }, func(x ssa.Instruction) bool {
-						if call, isC := x.(*ssa.Call); isC {
-							op, k, isL := eng.LockOp(&call.Call)
-							return isL && k == keyStore && op == "Unlock"
-						}
-						return false
-					})
-					if hit == nil {
-						ok = true
-					}
-				}
-			}
+			ok := removalGuardedByHandle(a)
 			c.Check(ok, "R-C12-4", a.Fn, a.In.Pos(), eng.InstrStr(a.In), "edge-dominated by the not-present edge of a comma-ok lookup of the same name in Store.active.f, in the same critical section (a name with a handle is never removed)", "holding here: "+eng.FactsString(a.In))
 		case "update":
 			if virtual {
@@ -329,3 +280,40 @@ func derivedFromSecretBytes(v ssa.Value) bool {
 }
 
 var _ = types.Identical
+
+// storeBytesImmutable: an installed api.SecretValue is never mutated and no
+// element store / copy / append / clear touches bytes derived from a
+// SecretValue.Value or from invoking a Secret (shared by C12 and C18).
+func storeBytesImmutable(c *eng.Ctx, rule string) {
+	p := c.P
+	n3 := 0
+	for _, f := range p.PkgFuncs(setecPkg) {
+		eng.Instrs(f, func(in ssa.Instruction) {
+			switch x := in.(type) {
+			case *ssa.Store:
+				if fr, ok := eng.FieldOfAddr(x.Addr); ok && eng.IsNamed(fr.Owner, "types/api", "SecretValue") {
+					fa := x.Addr.(*ssa.FieldAddr)
+					n3++
+					c.Check(freshBase(fa.X), rule, f, in.Pos(), "store to SecretValue."+fr.Name, "a SecretValue is only written inside the literal that creates it (values are replaced, never mutated)", "stores into an existing value "+eng.ValStr(fa.X))
+				}
+				if ia, ok := x.Addr.(*ssa.IndexAddr); ok && derivedFromSecretBytes(ia.X) {
+					c.Bad(rule, f, in.Pos(), eng.InstrStr(in), "no element store into bytes owned by the store", "writes into "+eng.ValStr(ia.X))
+				}
+			case *ssa.Call:
+				if args, ok := eng.BuiltinCall(in, "copy"); ok && derivedFromSecretBytes(args[0]) {
+					c.Bad(rule, f, in.Pos(), eng.InstrStr(in), "no copy into bytes owned by the store", "destination "+eng.ValStr(args[0]))
+				}
+				if args, ok := eng.BuiltinCall(in, "clear"); ok && derivedFromSecretBytes(args[0]) {
+					c.Bad(rule, f, in.Pos(), eng.InstrStr(in), "bytes owned by the store (also superseded ones: readers may still hold them) are never overwritten", "clear() of "+eng.ValStr(args[0]))
+				}
+				if args, ok := eng.BuiltinCall(in, "append"); ok && derivedFromSecretBytes(args[0]) {
+					c.Bad(rule, f, in.Pos(), eng.InstrStr(in), "no append onto bytes owned by the store (may write into spare capacity)", "base "+eng.ValStr(args[0]))
+				}
+			}
+		})
+	}
+	if n3 == 0 {
+		c.Ok(rule, nil, 0, "stores to api.SecretValue fields in client/setec", "none outside literals")
+	}
+
+}
